@@ -60,8 +60,8 @@ def score():
             "when the seed arrived, %d were missed (or caught only fail-closed) and led to a new or stronger rule: %s.  Each of "
             "those rules is described under its property in section 5 (\"As built ... added after a seeded change was missed\") "
             "and is exercised by the thorough tier's self-test against the very seed that exposed the gap.  Seeds caught by a "
-            "*different* property's check than the one they were written for: %s.  C06b is caught fail-closed "
-            "(`unrecognised-shape`: a third loop that the table engine does not tabulate).  Lesson recorded for the reader: the "
+            "*different* property's check than the one they were written for: %s.  C06b was first caught only "
+            "fail-closed (`unrecognised-shape`) and got the semantic rule C06.0 afterwards.  Lesson recorded for the reader: the "
             "first versions decided necessary conditions that were *too narrow* in roughly one case out of three; the seeds, "
             "not my own review, found that — which is why the second round of seeds (suffix `b`/`c`, written to avoid the "
             "first seed's mechanism) was run for most properties."
